@@ -168,6 +168,20 @@ def run(ctx):
                 game = 'wowp' if f.endswith('wowpreplay') else 'wows' if f.endswith('wowsreplay') else 'wot'
                 ctx.deviation('installed-copy-differs', {'game': game}, dict(kind='installed-copy', file=label, digest_checkout=want, digest_installed=got.get(f),
                               how='unpack the wheel, put it first on sys.path with /repo removed, ReplayParser(file).get_info(); compare with the checkout'))
+        # the same installed copy imported THROUGH A SYMBOLIC LINK (lib64 -> lib, as virtual environments have it): same answers
+        try: os.symlink('lib', os.path.join(tmp, 'venv-1.0', 'lib64')); inst64 = os.path.join(tmp, 'venv-1.0', 'lib64', 'python3.12', 'site-packages')
+        except OSError: inst64 = None
+        if inst64:
+            sub = [f for f in files if f.endswith('.wowsreplay')][:2] + [f for f in files if f.endswith('.wotreplay')][:1] + [f for f in files if f.endswith('.wowpreplay')][:1]
+            pr = subprocess.run([common.PY, wk, inst64, common.VERIF] + sub, capture_output=True, text=True, timeout=1800, env=env, cwd=tmp)
+            got64 = dict((l.split(' ', 1)[1], l.split(' ', 1)[0]) for l in pr.stdout.strip().split('\n') if ' ' in l)
+            for f in sub:
+                want = digest.digest_of(f, False)
+                ctx.case(('installed-through-symlink', os.path.basename(f))); ctx.count('installed-through-symlink')
+                if got64.get(f) != want:
+                    ctx.violation(dict(kind='installed-copy', file=os.path.basename(f), digest_checkout=want, digest_installed=got64.get(f), install_location='<tmp>/venv-1.0/lib64/python3.12/site-packages with lib64 -> lib',
+                                       how='unpack the wheel into <tmp>/venv-1.0/lib/python3.12/site-packages, ln -s lib <tmp>/venv-1.0/lib64, put the lib64 path first on sys.path with /repo removed, ReplayParser(file).get_info(); compare with the checkout'))
+                    break
     finally:
         shutil.rmtree(tmp, ignore_errors=True)
 
